@@ -243,7 +243,65 @@ class _Worker:
             pass
 
 
-def run_pool(fn, args, workers=None, task_timeout=600, wall_budget=None, on_result=None):
+def in_child(fn, *args, timeout=600):
+    """Run fn(*args) in a forked child of the *current* process state and return its result.
+    Used where the caller must stay pristine (no OpenAeroStruct object ever built in it).
+    Raw os.fork (multiprocessing forbids children of daemonic workers)."""
+    import pickle
+    import select
+
+    r, w = os.pipe()
+    sys.stdout.flush()
+    sys.stderr.flush()
+    pid = os.fork()
+    if pid == 0:
+        code = 0
+        try:
+            os.close(r)
+            try:
+                out = ("ok", fn(*args))
+            except HarnessError as e:
+                out = ("harness", "%s\n%s" % (e, traceback.format_exc()))
+            except BaseException as e:  # noqa
+                out = ("harness", "%s: %s\n%s" % (type(e).__name__, e, traceback.format_exc()))
+            try:
+                data = pickle.dumps(out, protocol=pickle.HIGHEST_PROTOCOL)
+            except Exception as e:  # noqa
+                data = pickle.dumps(("harness", "result not picklable: %r" % (e,)))
+            with os.fdopen(w, "wb") as f:
+                f.write(data)
+        except BaseException:  # noqa
+            code = 1
+        finally:
+            os._exit(code)
+    os.close(w)
+    chunks = []
+    t_end = time.time() + timeout
+    try:
+        while True:
+            left = t_end - time.time()
+            if left <= 0:
+                os.kill(pid, signal.SIGKILL)
+                os.waitpid(pid, 0)
+                raise HarnessError("child timed out after %ss" % timeout)
+            rl, _, _ = select.select([r], [], [], min(left, 5.0))
+            if rl:
+                b = os.read(r, 1 << 20)
+                if not b:
+                    break
+                chunks.append(b)
+    finally:
+        os.close(r)
+    os.waitpid(pid, 0)
+    if not chunks:
+        raise HarnessError("child died without a result")
+    st, pl = pickle.loads(b"".join(chunks))
+    if st != "ok":
+        raise HarnessError("child failed: %s" % pl)
+    return pl
+
+
+def run_pool(fn, args, workers=None, task_timeout=600, wall_budget=None, on_result=None, recycle=False):
     """Run fn(arg) for every arg in forked workers, one task per worker at a time.
 
     Returns list of (arg, status, payload); status in {"ok","harness","timeout","skipped"}.
@@ -305,6 +363,15 @@ def run_pool(fn, args, workers=None, task_timeout=600, wall_budget=None, on_resu
                         ri, out = w.parent.recv()
                         finish(ri, out[0], out[1])
                         w.task = None
+                        if recycle:  # one task per process: the next task starts from the pristine parent
+                            try:
+                                w.parent.send(None)
+                            except Exception:
+                                pass
+                            w.proc.join(2)
+                            if w.proc.is_alive():
+                                w.kill()
+                            pool[k] = _Worker(ctx, fn)
                     except (EOFError, OSError):
                         finish(i, "timeout", "worker died")
                         w.kill()
